@@ -4,14 +4,21 @@
 Tie T: polyhedron face patterns (tabulated under a non-identity argsort), degeneracy patterns -> Gen/Tables.lean
        (`decide` / `ring` obligations in Props/C18; `C18_pyr_table` fails while pyr_to_polyhedron omits argsort: F10).
 Tie D: face data of `to_polyhedron()` (vs the model for Cfg.fixed and Cfg.upstream: exactly one must reproduce
-       the tree), element blocks of `resolve_degeneracy()`, connectivity after `make_elements_positive()`.
+       the tree), element blocks of `resolve_degeneracy()`, connectivity after `make_elements_positive()` - also after a
+       HISTORY of volume / metric queries and earlier make_elements_positive() calls on the same object, against the
+       history model `runH` for Cfg.freshMetric = true / false (again exactly one must reproduce the tree).
 Tie P: exact-rational polyhedron / element volumes of the model vs the float kernels, on fresh objects.
 Oracle: the property on the real API: per element closed / own nodes / outward / equal volume; the four collapse
         patterns; every subset of inverted tets of small meshes; fresh-object volume >= 0.
-Stream `positive:prior-query:*` (inside the quantifier, reported through `fail`): the object is queried through the
-        public API before make_elements_positive() - calculate_element_volumes(return_abs_volume=True,
-        raise_negative_volume=False), i.e. the caller records "the absolute volume as before" on the same object, or the
-        signed variant - then the same clauses are checked (same nodes, same |V| as the recorded one, fresh-object volume >= 0).
+Histories (inside the quantifier, reported through `fail`): each of the three operations is also run after 0-4 public
+        calls on the SAME object (calculate_element_metrics / calculate_element_volumes with every combination of
+        raise_negative_* / return_abs_* / mode, signed-abs-signed sequences, surface / facet extraction, normals,
+        incidence / adjacency matrices, elemental->nodal conversion, the operation itself once more).  The result is
+        judged ONLY against independently rebuilt fresh objects and the generated mesh description (never against what
+        the live object has stored); the arrays earlier queries returned to the caller are kept (live object + copy) and
+        re-compared after every later call, the stored elemental variables are snapshotted before / after every call
+        (both go into the replay as a trace that names the call which changed them; a clause of C18 is evaluated with
+        the arrays the caller holds, so a later call that corrupts them is reported through that clause).
 """
 import itertools
 from fractions import Fraction as F
@@ -25,33 +32,250 @@ from . import d_util as U
 PROP = 'C18'
 LEAN_MODULES = ['Femio.Props.C18', 'Femio.Props.C18Pyr']
 THEOREMS = ['C18_pos_correct', 'C18_pyr_table', 'C18_poly_closed', 'C18_poly_own_nodes', 'C18_poly_outward_volume',
-            'C18_poly_kernels', 'C18_degeneracy', 'C18_degeneracy_untouched', 'C18_positive', 'C18_permute_table', 'C18_pyr_counterexample']
+            'C18_poly_kernels', 'C18_degeneracy', 'C18_degeneracy_untouched', 'C18_positive', 'C18_permute_table', 'C18_pyr_counterexample',
+            'C18_positive_any_history', 'C18_positive_history_partial', 'C18_stored_metric_counterexample']
 PARTIAL = [
     'C18_poly_outward_volume: volumes are the centroid-fan kernels (exact for planar faces; for warped quadrilaterals '
     'the polyhedron "linear" kernel and the hex / prism / pyr "linear" kernels triangulate differently and are not '
     'claimed equal)',
     'C18_degeneracy: volume equality is between the centroid kernels of the degenerate hex and of the prism',
-    'make_elements_positive is modelled for tet meshes (femio raises NotImplementedError for every other type)',
+    'make_elements_positive is modelled for tet meshes (femio raises NotImplementedError for every other type with an '
+    'inverted element, and for any mesh containing pyramids); the history model (C18_positive_any_history) covers '
+    'calculate_element_metrics / calculate_element_volumes / make_elements_positive - the other prior queries of the '
+    'generated histories (surface, normals, incidence ...) are oracle-only',
+    'C18_positive_history_partial is the statement for the unrepaired configuration (before e608c63) and is kept '
+    'for reference with its counterexample C18_stored_metric_counterexample',
 ]
-RULE = ('(a) to_polyhedron: seeded geometric meshes (tet / hex / prism / pyr / mixed) with node ids in ascending, '
-        'descending and shuffled storage order, dense / sparse / large ids; (b) resolve_degeneracy: hex and '
-        'hex+prism(+pyr) meshes in which a random subset of hexahedra is collapsed along one of the four edge pairs '
-        '(01, 12, 23, 30), every pattern also alone on a single hex, plus a labelled stream of unknown patterns '
-        '(ValueError expected); (c) make_elements_positive: every subset of inverted tets of 6-tet meshes '
-        '(2^6 subsets) and random subsets of larger tet meshes, each also as a history "prior abs-volume query" '
-        '(calculate_element_volumes(return_abs_volume=True, raise_negative_volume=False) on the same object, then '
-        'make_elements_positive()) and "prior signed-volume query"; non-trivial = storage order differs from ascending '
-        'ids (a), at least one degenerate hex (b), at least one inverted tet (c)')
+RULE = ('(a) to_polyhedron: seeded geometric meshes (tet / hex / prism / pyr / mixed with interleaved element ids; tet '
+        'meshes also with a random inverted subset) with node ids in ascending, descending and shuffled storage order, '
+        'dense / sparse / large ids; (b) resolve_degeneracy: hex and hex+prism(+pyr) meshes in which a random subset of '
+        'hexahedra is collapsed along one of the four edge pairs (01, 12, 23, 30), every pattern also alone on a single '
+        'hex, plus a labelled stream of unknown patterns (ValueError expected); (c) make_elements_positive: every subset '
+        'of inverted tets of 6-tet meshes (2^6 subsets) and random subsets of larger tet meshes; positive hex / prism / '
+        'mixed meshes (empty inverted subset: no-op expected; meshes with pyramids are a labelled stream, femio has no '
+        'pyramid metric). HISTORIES: half of the cases of (a), (b) and a second copy of the streams of (c) run the '
+        'operation after 0-4 public calls on the same object: for (c) the 2^6 subsets are paired with an ENUMERATION of '
+        'all histories of <= 2 signed / absolute metric / volume queries, the signed-abs-signed triples and the '
+        'operation repeated; elsewhere histories are random (volume / metric queries with every combination of '
+        'raise_negative_*, return_abs_*, mode; "themed" sequences toggling return_abs on one function; surface / facet '
+        'extraction, surface normals, incidence / adjacency matrices, elemental->nodal conversion; the operation itself '
+        'once more). Results are judged against independently rebuilt fresh objects only. non-trivial = storage order '
+        'differs from ascending ids (a), at least one degenerate hex (b), at least one inverted tet (c)')
 ASSUMPTIONS = [
-    'volumes are evaluated on fresh objects (stored `volume` / `metric` entries are stale after '
-    'make_elements_positive: DESIGN section 5 F11, property C19)',
-    'original per-element volumes are evaluated block by block (the `mix` branch of calculate_element_volumes '
-    'mis-assigns per-block results when a block is not stored in ascending id order; outside C18)',
+    'volumes are evaluated on fresh objects built from copies of the result\'s arrays (what the live object has stored '
+    'in elemental_data - which ignores the options of later queries - is property C19\'s business: DESIGN section 5 F11)',
+    'original per-element volumes are evaluated block by block on a fresh object (independent of the `mix` branch of '
+    'calculate_element_volumes, which belongs to C11)',
     'node ids < 2^31 (to_polyhedron casts connectivity to int32)',
+    'a prior query that raises (ValueError of raise_negative_*=True on an inverted mesh, NotImplementedError of the '
+    'pyramid metric, anything on a degenerate hexahedron) is part of the history, not a C18 failure: the history goes on',
 ]
 TRUSTED = ['C18: harness/meshgen.py face tables are the oracle\'s independent definition of an element\'s boundary']
 
 PATTERNS = {'01': (0, 1), '12': (1, 2), '23': (2, 3), '30': (3, 0)}
+
+
+# ------------------------------------------------------------------ histories of public calls on ONE object
+#
+# a call is JSON: ['metrics', raise, abs] | ['volumes', mode, raise, abs] | ['query', name] | ['again'] (the operation under
+# test itself, result discarded)
+
+MODES = ('centroid', 'linear', 'gaussian')
+QUERIES = {
+    'extract_surface': lambda fd: fd.extract_surface(),
+    'to_surface': lambda fd: fd.to_surface(),
+    'surface_normals': lambda fd: fd.calculate_surface_normals(),
+    'extract_facets': lambda fd: fd.extract_facets(),
+    'incidence': lambda fd: fd.calculate_incidence_matrix(),
+    'adjacency_element': lambda fd: fd.calculate_adjacency_matrix_element(),
+    'adjacency_node': lambda fd: fd.calculate_adjacency_matrix_node(),
+    'relative_incidence': lambda fd: fd.calculate_relative_incidence_metrix_element(fd, minimum_n_sharing=3),
+    # volume-weighted elemental -> nodal mean: asks calculate_element_metrics(raise_negative_metric=False) internally
+    # one block handed in explicitly (element_type taken from the block's name; stores what it computed)
+    'block_volumes': lambda fd: fd.calculate_element_volumes(elements=list(fd.elements.values())[0], raise_negative_volume=False),
+    'block_metrics': lambda fd: fd.calculate_element_metrics(elements=list(fd.elements.values())[-1], raise_negative_metric=False),
+    'e2n_mean': lambda fd: fd.convert_elemental2nodal(np.ones((len(fd.elements.ids), 1)), mode='mean', raise_negative_volume=False),
+}
+VOLUME_LIKE = ('metrics', 'volumes')
+
+
+def _metric_call(rnd, f, r, a):
+    if f == 'metrics':
+        return ['metrics', bool(r), bool(a)]
+    return ['volumes', rnd.choice(MODES) if rnd.random() < .3 else 'centroid', bool(r), bool(a)]
+
+
+def gen_history(rnd, again=True):
+    """0-4 prior public calls. Half of the histories are 'themed': one function asked again and again with return_abs
+    toggling (signed, abs, signed ...: what a caller does who looks at the inverted cells and then sums the volume)."""
+    n = rnd.choice([0, 1, 1, 2, 2, 3, 3, 4])
+    themed = rnd.random() < .5
+    f = rnd.choice(VOLUME_LIKE)
+    a = rnd.random() < .5
+    h = []
+    for _ in range(n):
+        if themed:
+            h.append(_metric_call(rnd, f, rnd.random() < .2, a))
+            a = not a
+            if rnd.random() < .15:
+                f = 'metrics' if f == 'volumes' else 'volumes'
+        else:
+            u = rnd.random()
+            if u < .55:
+                h.append(_metric_call(rnd, rnd.choice(VOLUME_LIKE), rnd.random() < .3, rnd.random() < .5))
+            elif u < .9 or not again:
+                h.append(['query', rnd.choice(sorted(QUERIES))])
+            else:
+                h.append(['again'])
+    return h
+
+
+def enum_histories():
+    """all histories of <= 2 signed / absolute metric / volume queries, the alternating triples, the operation repeated"""
+    Q = [['metrics', False, False], ['metrics', False, True], ['volumes', 'centroid', False, False], ['volumes', 'centroid', False, True]]
+    hs = [[]] + [[q] for q in Q] + [[p, q] for p in Q for q in Q]
+    for s_, a_ in ((Q[0], Q[1]), (Q[2], Q[3])):
+        hs += [[s_, a_, s_], [a_, s_, a_]]
+    hs += [[['again']], [Q[1], ['again']], [['again'], Q[0]], [Q[2], ['again'], Q[3]]]
+    return hs
+
+
+def legacy_history(prior):
+    """replay files of earlier rounds: 'prior_query' = abs-volume | signed-volume"""
+    return {'abs-volume': [['volumes', 'centroid', False, True]], 'signed-volume': [['volumes', 'centroid', False, False]]}.get(prior, [])
+
+
+def hist_label(hist):
+    if not hist:
+        return 'none'
+    kinds = {c[0] for c in hist}
+    return '+'.join(sorted(kinds))
+
+
+def _diff_kind(old, new):
+    if old is None:
+        return 'created'
+    if new is None:
+        return 'removed'
+    if old.shape != new.shape:
+        return 'shape'
+    if np.array_equal(old, new, equal_nan=True):
+        return None
+    return 'sign' if np.array_equal(np.abs(old), np.abs(new), equal_nan=True) else 'values'
+
+
+class Hist:
+    """runs calls on one object; keeps what every query returned to the caller (the live array AND a copy taken at return
+    time) and snapshots of the stored numeric elemental variables before / after every call"""
+
+    def __init__(self, fd, again):
+        self.fd, self.again = fd, again
+        self.trace = []
+        self.held = []      # (index of the call, live array, copy at return time)
+
+    def stored(self):
+        out = {}
+        try:
+            for k in list(self.fd.elemental_data.keys()):
+                try:
+                    a = np.asarray(self.fd.elemental_data.get_attribute_data(k))
+                except Exception:  # noqa
+                    continue
+                if a.dtype.kind in 'fiu':
+                    out[k] = np.array(a, copy=True)
+        except Exception:  # noqa
+            pass
+        return out
+
+    def _after(self, entry, before):
+        after = self.stored()
+        ch = {k: _diff_kind(before.get(k), after.get(k)) for k in sorted(set(before) | set(after))}
+        ch = {k: v for k, v in ch.items() if v}
+        if ch:
+            entry['stored_variables_changed'] = ch
+        for i, live, cp in self.held:
+            d = _diff_kind(cp, np.asarray(live))
+            if d and 'returned_array_changed' not in self.trace[i]:
+                self.trace[i]['returned_array_changed'] = {'by_call': len(self.trace), 'how': d}
+
+    def call(self, c):
+        before = self.stored()
+        entry = {'call': c}
+        r = None
+        if c[0] == 'again':
+            G.quiet(self.again)                     # the operation itself: an exception here is the property's business
+            entry['outcome'] = 'ok'
+        else:
+            try:
+                if c[0] == 'metrics':
+                    r = G.quiet(self.fd.calculate_element_metrics, raise_negative_metric=c[1], return_abs_metric=c[2])
+                elif c[0] == 'volumes':
+                    r = G.quiet(self.fd.calculate_element_volumes, mode=c[1], raise_negative_volume=c[2], return_abs_volume=c[3])
+                else:
+                    r = G.quiet(QUERIES[c[1]], self.fd)
+                entry['outcome'] = 'ok'
+            except Exception as e:  # noqa   (a raising prior query is part of the history)
+                entry['outcome'] = 'raised:' + type(e).__name__
+        self._after(entry, before)
+        self.trace.append(entry)
+        if isinstance(r, np.ndarray) and r.dtype.kind == 'f' and c[0] in VOLUME_LIKE:
+            self.held.append((len(self.trace) - 1, r, np.array(r, copy=True)))
+
+    def final(self, name):
+        before = self.stored()
+        entry = {'call': [name, '(the operation under test)']}
+        r = G.quiet(self.again)
+        entry['outcome'] = 'ok'
+        self._after(entry, before)
+        self.trace.append(entry)
+        return r
+
+    def held_now(self):
+        """what the caller holds NOW from the earlier volume / metric queries (live arrays, first column)"""
+        out = []
+        for i, live, _ in self.held:
+            a = np.asarray(live)
+            out.append({'call': i, 'values': [float(x) for x in (a[:, 0] if a.ndim == 2 else a.ravel())]})
+        return out
+
+
+def run_history(fd, hist, again, name):
+    h = Hist(fd, again)
+    for c in hist:
+        h.call(c)
+    r = h.final(name)
+    return h, r
+
+
+def count_history(ctx, op, hist, trace):
+    ctx.count(f'{op}:history:len:{len(hist)}')
+    ctx.count(f'{op}:history:' + hist_label(hist))
+    for e in trace[:-1]:
+        c = e['call']
+        if c[0] in VOLUME_LIKE:
+            ctx.count(f'history:call:{c[0]}:raise={int(c[-2])}:abs={int(c[-1])}')
+            if c[0] == 'volumes':
+                ctx.count('history:mode:' + c[1])
+        elif c[0] == 'query':
+            ctx.count('history:call:' + c[1])
+        else:
+            ctx.count('history:call:again')
+        if e['outcome'] != 'ok':
+            ctx.count('history:prior-call-' + e['outcome'])
+        if 'returned_array_changed' in e:
+            ctx.count('history:earlier-returned-array-changed:' + e['returned_array_changed']['how'])
+    for e in trace:
+        for k, v in e.get('stored_variables_changed', {}).items():
+            ctx.count(f'history:stored:{k}:{v}')
+
+
+def source_unchanged(fd, m):
+    """nodes / element blocks of the live source object still describe the generated mesh"""
+    try:
+        return ([int(i) for i in fd.nodes.ids] == [i for i, _ in m['nodes']]
+                and blocks_of(fd) == {t: [(e, list(c)) for e, c in b] for t, b in m['blocks'].items()})
+    except Exception:  # noqa
+        return False
 
 
 # ------------------------------------------------------------------ (a) to_polyhedron
@@ -66,16 +290,57 @@ def decode_faces(dat):
     return fs, i == len(dat)
 
 
-def poly_real(m):
+def _objarr(rows):
+    a = np.empty(len(rows), object)
+    for i, r in enumerate(rows):
+        a[i] = list(r)
+    return a
+
+
+def rebuild_poly(m, obs):
+    """an independently built polyhedron object holding COPIES of the result's ids / connectivity / face data (nothing
+    of the history of the source object can reach it)"""
+    from femio import FEMData, FEMAttribute, FEMElementalAttribute
+    U.clear_caches()
+    nodes = FEMAttribute('NODE', ids=np.array([i for i, _ in m['nodes']]),
+                         data=np.array([[float(v) for v in p] for _, p in m['nodes']]), silent=True)
+    conn = obs['conn']
+    cd = np.array(conn) if len({len(r) for r in conn}) == 1 else _objarr(conn)
+    ids = np.array(obs['ids'])
+    el = FEMElementalAttribute('ELEMENT', {'polyhedron': FEMAttribute('polyhedron', ids=ids, data=cd, silent=True)})
+    p = G.quiet(lambda: FEMData(nodes=nodes, elements=el))
+    face = FEMElementalAttribute('face', {'polyhedron': FEMAttribute('face', ids=ids.copy(), data=_objarr(obs['face']), silent=True)})
+    G.quiet(p.elemental_data.update, {'face': face})
+    return p
+
+
+def stores_volume(hist):
+    """the history may have left a stored `volume` on the source object (to_polyhedron hands the source's
+    elemental_data to the result, whose own calculate_element_volumes() then answers from it: C19)"""
+    return any(c[0] in VOLUME_LIKE or (c[0] == 'query' and c[1] in ('e2n_mean', 'block_volumes', 'block_metrics')) for c in hist)
+
+
+def poly_real(m, hist=()):
+    hist = list(hist)
     fd = U.fresh(m)
-    poly = G.quiet(fd.to_polyhedron)
+    H, poly = run_history(fd, hist, fd.to_polyhedron, 'to_polyhedron')
     obs = {'ids': [int(i) for i in poly.elements.ids], 'types': list(poly.elements.keys()),
            'conn': [[int(x) for x in r] for r in poly.elements.data],
            'face': [[int(x) for x in r] for r in poly.elemental_data['face']['polyhedron'].data],
-           'node_ids': [int(i) for i in poly.nodes.ids]}
+           'node_ids': [int(i) for i in poly.nodes.ids], 'trace': H.trace, 'source_unchanged': source_unchanged(fd, m)}
+    if not stores_volume(hist):
+        # observe_at: calculate_element_volumes on the result object itself
+        obs['vol_result_object'] = [float(x) for x in G.quiet(poly.calculate_element_volumes, raise_negative_volume=False)[:, 0]]
+    if any(c[0] == 'again' for c in hist) or not hist:
+        # the result converted once more (a polyhedron mesh: outside the quantifier, labelled stream)
+        try:
+            p3 = G.quiet(poly.to_polyhedron)
+            obs['reconverted_same'] = ([[int(x) for x in r] for r in p3.elemental_data['face']['polyhedron'].data] == obs['face']
+                                       and [int(i) for i in p3.elements.ids] == obs['ids'])
+        except Exception as e:  # noqa
+            obs['reconverted_same'] = 'raised:' + type(e).__name__
     for mode in ('centroid', 'linear'):
-        fd2 = U.fresh(m)
-        p2 = G.quiet(fd2.to_polyhedron)
+        p2 = rebuild_poly(m, obs)
         obs['vol_' + mode] = [float(x) for x in G.quiet(p2.calculate_element_volumes, mode=mode, raise_negative_volume=False)[:, 0]]
         obs['orig_' + mode] = U.real_volumes(m, mode)
     return obs
@@ -127,6 +392,10 @@ def poly_oracle(ctx, m, obs, case):
             ctx.fail(f'poly:{t}:volume-differs', 'calculate_element_volumes() of the polyhedron differs from the element\'s volume',
                      case, {**what, 'polyhedron': obs['vol_centroid'][k], 'element': obs['orig_centroid'][e]})
             return
+        if 'vol_result_object' in obs and not U.close(obs['vol_result_object'][k], obs['orig_centroid'][e], 2 * U.TOL_CENTROID * sc):
+            ctx.fail(f'poly:{t}:volume-differs', 'calculate_element_volumes() on the object returned by to_polyhedron() differs from the element\'s volume',
+                     case, {**what, 'polyhedron': obs['vol_result_object'][k], 'element': obs['orig_centroid'][e]})
+            return
         if t == 'tet' and not U.close(obs['vol_linear'][k], obs['orig_linear'][e], U.TOL_LINEAR * sc):
             ctx.fail(f'poly:{t}:volume-differs', 'calculate_element_volumes(mode="linear") of the polyhedron differs from the element\'s volume',
                      case, {**what, 'polyhedron': obs['vol_linear'][k], 'element': obs['orig_linear'][e]})
@@ -165,28 +434,41 @@ def poly_correspond(ctx, m, obs, case, tally):
             break
 
 
-def poly_case(ctx, m, tally):
+def poly_case(ctx, m, tally, hist=()):
+    hist = list(hist)
     case = U.mesh_case(m, op='to_polyhedron')
     ids = [i for i, _ in m['nodes']]
     key = ('poly', tuple(m['nodes']), tuple((t, tuple((e, tuple(c)) for e, c in b)) for t, b in m['blocks'].items()))
+    if hist:
+        case['history'] = hist
+        key = key + (repr(hist),)
     U.stage('to_polyhedron() / calculate_element_volumes()')
-    obs = U.guarded(ctx, case, key, poly_real, m)
+    obs = U.guarded(ctx, case, key, poly_real, m, hist)
     if obs is None:
         return
-    ctx.case(key, sample={**G.describe(m), 'op': 'to_polyhedron'}, nontrivial=ids != sorted(ids))
+    ctx.case(key, sample={**G.describe(m), 'op': 'to_polyhedron', **({'history': hist} if hist else {})}, nontrivial=ids != sorted(ids))
     ctx.count('poly:kind:' + m['kind'])
     ctx.count('poly:order:' + m['order'])
     ctx.count('poly:ids:' + str(m.get('id_style')))
     for t in m['blocks']:
         ctx.count('poly:type:' + t, len(m['blocks'][t]))
+    count_history(ctx, 'poly', hist, obs['trace'])
+    if not obs['source_unchanged']:
+        ctx.count('poly:source-object-changed')
+    if 'reconverted_same' in obs:
+        ctx.count('poly:reconverted-polyhedron-mesh:' + ('same' if obs['reconverted_same'] is True else str(obs['reconverted_same'])))
     if ctx.driver is not None:
         poly_correspond(ctx, m, obs, case, tally)
     n0 = len(ctx.failures)
     poly_oracle(ctx, m, obs, case)
-    if len(ctx.failures) > n0 and ctx.failures[-1]['observed'] and 'element' in ctx.failures[-1]['observed']:
-        small = shrink_poly(m, ctx.failures[-1]['observed']['element'], ctx.failures[-1]['signature'])
-        if small is not None:
-            ctx.failures[-1].update(small)
+    if len(ctx.failures) > n0:
+        f = ctx.failures[-1]
+        if hist and isinstance(f['observed'], dict):
+            f['observed']['history_trace'] = obs['trace']
+        if f['observed'] and 'element' in f['observed']:
+            small = shrink_poly(m, f['observed']['element'], f['signature'])
+            if small is not None:
+                f.update(small)
 
 
 class _Collect:
@@ -242,13 +524,15 @@ def blocks_of(fd):
     return {t: [(int(i), [int(x) for x in r]) for i, r in zip(a.ids, a.data)] for t, a in fd.elements.items()}
 
 
-def degen_real(m):
+def degen_real(m, hist=()):
+    hist = list(hist)
     fd = U.fresh(m)
     try:
-        r = G.quiet(fd.resolve_degeneracy)
+        H, r = run_history(fd, hist, fd.resolve_degeneracy, 'resolve_degeneracy')
     except ValueError as e:
-        return {'error': 'value_error', 'msg': str(e)}
-    obs = {'blocks': blocks_of(r), 'node_ids': [int(i) for i in r.nodes.ids]}
+        return {'error': 'value_error', 'msg': str(e), 'trace': []}
+    obs = {'blocks': blocks_of(r), 'node_ids': [int(i) for i in r.nodes.ids], 'trace': H.trace,
+           'source_unchanged': source_unchanged(fd, m)}
     m_after = {'nodes': m['nodes'], 'blocks': {t: [(e, c) for e, c in b] for t, b in obs['blocks'].items()}, 'kind': 'after', 'order': m['order']}
     obs['vol_after'] = U.real_volumes(m_after, 'centroid')
     obs['vol_before'] = U.real_volumes(m, 'centroid')
@@ -318,27 +602,39 @@ def degen_correspond(ctx, m, obs, case):
         ctx.disagree('resolve_degeneracy element blocks', case, [(k, v[:3]) for k, v in impl], [(k, v[:3]) for k, v in mb])
 
 
-def degen_case(ctx, m, pats, stream='main'):
+def degen_case(ctx, m, pats, stream='main', hist=()):
+    hist = list(hist)
     case = U.mesh_case(m, op='resolve_degeneracy', patterns={str(k): v for k, v in pats.items()})
     key = ('degen', tuple(m['nodes']), tuple((t, tuple((e, tuple(c)) for e, c in b)) for t, b in m['blocks'].items()))
+    if hist:
+        case['history'] = hist
+        key = key + (repr(hist),)
     U.stage('resolve_degeneracy() / calculate_element_volumes()')
-    obs = U.guarded(ctx, case, key, degen_real, m)
+    obs = U.guarded(ctx, case, key, degen_real, m, hist)
     if obs is None:
         return
-    ctx.case(key, sample={**G.describe(m), 'op': 'resolve_degeneracy', 'degenerate': len(pats)}, nontrivial=bool(pats))
+    ctx.case(key, sample={**G.describe(m), 'op': 'resolve_degeneracy', 'degenerate': len(pats), **({'history': hist} if hist else {})},
+             nontrivial=bool(pats))
     for p in pats.values():
         ctx.count('degen:pattern:' + p)
     ctx.count('degen:types:' + '+'.join(m['blocks']))
     ctx.count('degen:stream:' + stream)
+    count_history(ctx, 'degen', hist, obs['trace'])
+    if not obs.get('source_unchanged', True):
+        ctx.count('degen:source-object-changed')
     if ctx.driver is not None:
         degen_correspond(ctx, m, obs, case)
     if stream == 'unknown-pattern':
         ctx.count('degen:unknown-pattern:' + obs.get('error', 'no-error'))
         return
     if 'error' in obs:
-        ctx.fail('degeneracy:raises', 'resolve_degeneracy() raises on one of the four collapse patterns', case, obs)
+        ctx.fail('degeneracy:raises', 'resolve_degeneracy() raises on one of the four collapse patterns', case,
+                 {k: v for k, v in obs.items() if k != 'trace'})
         return
+    n0 = len(ctx.failures)
     degen_oracle(ctx, m, pats, obs, case)
+    if len(ctx.failures) > n0 and hist and isinstance(ctx.failures[-1]['observed'], dict):
+        ctx.failures[-1]['observed']['history_trace'] = obs['trace']
 
 
 # ------------------------------------------------------------------ (c) make_elements_positive
@@ -356,26 +652,15 @@ def invert(m, subset, how):
     return m2
 
 
-PRIOR_QUERIES = {
-    # public queries made on the SAME object before make_elements_positive() (histories; the unchanged code recomputes the
-    # signed volumes inside make_elements_positive because it passes elements=self.elements down)
-    'abs-volume': dict(return_abs_volume=True, raise_negative_volume=False),
-    'signed-volume': dict(raise_negative_volume=False),
-}
-
-
-def positive_real(m, prior=None):
+def positive_real(m, hist=()):
+    hist = list(hist)
     fd = U.fresh(m)
     before = [float(x) for x in G.quiet(fd.calculate_element_volumes, raise_negative_volume=False)[:, 0]]
     fd = U.fresh(m)
-    recorded = None
-    if prior is not None:
-        recorded = [float(x) for x in G.quiet(fd.calculate_element_volumes, **PRIOR_QUERIES[prior])[:, 0]]
-    G.quiet(fd.make_elements_positive)
+    H, _ = run_history(fd, hist, fd.make_elements_positive, 'make_elements_positive')
     obs = {'before': before, 'ids': U.flat_ids(fd), 'conn': [[int(x) for x in r] for r in fd.elements.data],
-           'block': [[int(x) for x in r] for r in fd.elements['tet'].data]}
-    if recorded is not None:
-        obs['prior'] = recorded
+           'block': [[int(x) for x in r] for r in fd.elements['tet'].data], 'trace': H.trace, 'held': H.held_now(),
+           'node_ids': [int(i) for i in fd.nodes.ids]}
     m_after = {'nodes': m['nodes'], 'blocks': {'tet': list(zip(obs['ids'], obs['conn']))}, 'kind': 'after', 'order': m['order']}
     f2 = U.fresh(m_after)
     obs['fresh'] = [float(x) for x in G.quiet(f2.calculate_element_volumes, raise_negative_volume=False)[:, 0]]
@@ -386,8 +671,8 @@ def positive_oracle(ctx, m, obs, case):
     rows = m['blocks']['tet']
     sc = U.scale(m)
     X = U.coords_exact(m)
-    if obs['ids'] != [e for e, _ in rows] or obs['block'] != obs['conn']:
-        ctx.fail('positive:ids-changed', 'make_elements_positive() changed element ids / left the block inconsistent', case, None)
+    if obs['ids'] != [e for e, _ in rows] or obs['block'] != obs['conn'] or obs['node_ids'] != [i for i, _ in m['nodes']]:
+        ctx.fail('positive:ids-changed', 'make_elements_positive() changed element / node ids or left the block inconsistent', case, {})
         return
     for k, (e, c) in enumerate(rows):
         c2 = obs['conn'][k]
@@ -400,12 +685,14 @@ def positive_oracle(ctx, m, obs, case):
         if abs(v1) != abs(v2) or not U.close(abs(obs['before'][k]), abs(obs['fresh'][k]), U.TOL_LINEAR * sc):
             ctx.fail('positive:abs-volume-changed', 'make_elements_positive() changed the absolute volume of an element', case, what)
             return
-        if 'prior' in obs:
-            # the absolute volume the caller recorded on the same object before the call
-            what['volume_recorded_before_on_the_same_object'] = obs['prior'][k]
-            if not U.close(abs(obs['prior'][k]), abs(obs['fresh'][k]), U.TOL_LINEAR * sc):
+        for h in obs['held']:
+            # what the caller holds from a volume / metric query made on the same object before the call ("the absolute
+            # volume as before"; tetrahedra: every mode is the same kernel) - the LIVE array, so a later call that
+            # overwrites what an earlier query returned shows up here
+            if len(h['values']) != len(rows) or not U.close(abs(h['values'][k]), abs(obs['fresh'][k]), U.TOL_LINEAR * sc):
+                what['volume_held_by_the_caller_from_prior_call'] = {'call': h['call'], 'value': h['values'][k] if k < len(h['values']) else None}
                 ctx.fail('positive:abs-volume-changed', 'the absolute volume of an element after make_elements_positive() differs from '
-                         'the one recorded on the same object before', case, what)
+                         'the one a query on the same object returned before', case, what)
                 return
         if v2 < 0 or obs['fresh'][k] < -U.TOL_LINEAR * sc:
             ctx.fail('positive:still-negative', 'a freshly evaluated volume is negative after make_elements_positive()', case, what)
@@ -421,7 +708,7 @@ def positive_correspond(ctx, m, obs, case):
     if after != list(zip(obs['ids'], obs['conn'])):
         k = next((i for i, (x, y) in enumerate(zip(after, zip(obs['ids'], obs['conn']))) if x != y), 0)
         ctx.disagree('connectivity after make_elements_positive()', case, (obs['ids'][k], obs['conn'][k]), after[k])
-        return
+        return after
     sc = U.scale(m)
     for k in range(len(vb)):
         if not U.close(vb[k], obs['before'][k], U.TOL_LINEAR * sc) or not U.close(va[k], obs['fresh'][k], U.TOL_LINEAR * sc):
@@ -430,29 +717,103 @@ def positive_correspond(ctx, m, obs, case):
         if va[k] < 0 or abs(va[k]) != abs(vb[k]):
             ctx.disagree('model: C18_positive instance violated', case, None, [str(vb[k]), str(va[k])])
             break
+    return after
 
 
-def positive_case(ctx, m, subset, label, prior=None):
+def hist_tokens(hist):
+    """the modelled part of a history as driver tokens (+ the final make_elements_positive)"""
+    ops = []
+    for c in hist:
+        if c[0] == 'metrics':
+            ops.append(f'm {int(c[1])} {int(c[2])}')
+        elif c[0] == 'volumes':
+            ops.append(f'v {int(c[2])} {int(c[3])}')
+        elif c[0] == 'again':
+            ops.append('p')
+        elif c == ['query', 'e2n_mean']:
+            ops.append('m 0 0')       # convert_elemental2nodal(mode='mean') asks calculate_element_metrics(raise_negative_metric=False)
+    ops.append('p')
+    return f'{len(ops)} ' + ' '.join(ops), len(ops) > 1
+
+
+def history_correspond(ctx, m, obs, case, hist, tally):
+    """connectivity after the history: the tree must behave as Cfg.freshMetric = true (`C18_positive_any_history`), i.e.
+    as if there had been no history; Cfg.upstream (decision from the stored metric) is evaluated for the detection"""
+    toks, modelled = hist_tokens(hist)
+    impl = list(zip(obs['ids'], obs['conn']))
+    res = {}
+    for cfg in ((1, 0) if modelled else (1,)):
+        t = C.Toks(ctx.driver.ask(f'c18.hist {cfg} {G.enc_mesh(m)} {toks}'))
+        res[cfg] = t.lst(lambda: (t.nat(), t.lst(t.nat))) if t.tok() == 'ok' else None
+    if not modelled:
+        res[0] = res[1]
+    for cfg in (1, 0):
+        tally[cfg][0 if res[cfg] == impl else 1] += 1
+    if res[1] != impl:
+        k = next((i for i, (x, y) in enumerate(zip(res[1] or [], impl)) if x != y), 0)
+        ctx.disagree('connectivity after a history of calls + make_elements_positive() differs from Cfg.fixed'
+                     + (' (tree behaves as Cfg.upstream: make_elements_positive decides from the stored metric)' if res[0] == impl else ''),
+                     case, impl[k] if k < len(impl) else None, (res[1] or [None])[k] if k < len(res[1] or []) else None)
+    return res[1]
+
+
+def positive_case(ctx, m, subset, label, hist=(), tally=None):
+    hist = list(hist)
     case = U.mesh_case(m, op='make_elements_positive', inverted=sorted(subset))
     key = ('pos', tuple(m['nodes']), tuple((e, tuple(c)) for e, c in m['blocks']['tet']))
-    if prior is not None:
-        # history: fd.calculate_element_volumes(**PRIOR_QUERIES[prior]) on the object, then fd.make_elements_positive()
-        case['prior_query'] = prior
-        key = key + (prior,)
+    if hist:
+        # history: the calls of `hist` on the object, then fd.make_elements_positive()
+        case['history'] = hist
+        key = key + (repr(hist),)
     U.stage('make_elements_positive() / calculate_element_volumes()')
-    obs = U.guarded(ctx, case, key, positive_real, m, prior)
+    obs = U.guarded(ctx, case, key, positive_real, m, hist)
     if obs is None:
         return
     sample = {**G.describe(m), 'op': 'make_elements_positive', 'inverted': len(subset)}
-    if prior is not None:
-        sample['prior_query'] = prior
-        ctx.count('positive:prior-query:' + prior)
+    if hist:
+        sample['history'] = hist
     ctx.case(key, sample=sample, nontrivial=bool(subset))
     ctx.count('positive:' + label)
     ctx.count('positive:order:' + m['order'])
+    count_history(ctx, 'positive', hist, obs['trace'])
     if ctx.driver is not None:
-        positive_correspond(ctx, m, obs, case)
+        after = positive_correspond(ctx, m, obs, case)
+        if hist:
+            h_after = history_correspond(ctx, m, obs, case, hist, tally if tally is not None else {1: [0, 0], 0: [0, 0]})
+            if after is not None and h_after is not None and after != h_after:
+                ctx.disagree('model: C18_positive_any_history instance violated', case, None, [after[:3], h_after[:3]])
+    n0 = len(ctx.failures)
     positive_oracle(ctx, m, obs, case)
+    if len(ctx.failures) > n0 and hist and isinstance(ctx.failures[-1]['observed'], dict):
+        ctx.failures[-1]['observed']['history_trace'] = obs['trace']
+
+
+def positive_other_case(ctx, m):
+    """make_elements_positive() on a positive mesh of other element types (empty subset of inverted elements): nothing
+    may change.  femio has no metric for pyramids (NotImplementedError): labelled stream, never a failure."""
+    case = U.mesh_case(m, op='make_elements_positive_other')
+    key = ('pos-other', tuple(m['nodes']), tuple((t, tuple((e, tuple(c)) for e, c in b)) for t, b in m['blocks'].items()))
+    fd = U.fresh(m)
+    U.stage('make_elements_positive()')
+    try:
+        G.quiet(fd.make_elements_positive)
+    except NotImplementedError as e:
+        ctx.case(key, sample={**G.describe(m), 'op': 'make_elements_positive', 'raised': 'NotImplementedError'}, nontrivial=False)
+        ctx.count('positive:other-types:' + ('pyramid-metric-not-implemented' if 'pyr' in m['blocks'] else 'not-implemented'))
+        if 'pyr' not in m['blocks']:
+            ctx.fail('raises:make_elements_positive():NotImplementedError', 'make_elements_positive() raised on a positive mesh without '
+                     'pyramids (nothing to re-orient)', case, {'error': repr(e)})
+        return
+    except Exception as e:  # noqa
+        ctx.case(key, sample={**G.describe(m), 'op': 'make_elements_positive', 'raised': type(e).__name__}, nontrivial=False)
+        ctx.fail(f'raises:make_elements_positive():{type(e).__name__}', 'make_elements_positive() raised on a positive mesh', case,
+                 {'error': repr(e)})
+        return
+    ctx.case(key, sample={**G.describe(m), 'op': 'make_elements_positive', 'inverted': 0}, nontrivial=False)
+    ctx.count('positive:other-types:' + '+'.join(m['blocks']))
+    if not source_unchanged(fd, m):
+        ctx.fail('positive:nodes-changed', 'make_elements_positive() changed a mesh without inverted elements', case,
+                 {'blocks_after': {t: b[:3] for t, b in blocks_of(fd).items()}})
 
 
 # ------------------------------------------------------------------ run
@@ -464,24 +825,34 @@ def run(ctx):
     rnd = ctx.rng
     boost = 1 if ctx.driver is not None else 2
     tally = {1: [0, 0], 0: [0, 0]}
+    tally_h = {1: [0, 0], 0: [0, 0]}
     for name, obj in C.corpus_cases(PROP):
         try:
             replay(ctx, obj, record=True)
             ctx.count('corpus')
         except Exception as e:  # noqa
             ctx.notes.append(f'corpus case {name}: {e!r}')
-    # (a) to_polyhedron
+    # (a) to_polyhedron; every second group of 15 (all kinds x orders) after a random history on the source object;
+    #     tet meshes: half with a random inverted subset
     kinds = ['tet', 'hex', 'prism', 'pyr', 'mixed']
     orders = ['asc', 'desc', 'shuf']
     for k in range(ctx.n(60, 1200) * boost):
         m = G.gen_geometric(rnd, kind=kinds[k % 5], max_cells=2 if ctx.quick else 3, order=orders[(k // 5) % 3],
                             id_style=rnd.choice(['dense', 'sparse', 'large', 'prefix']))
-        poly_case(ctx, m, tally)
+        with_history = (k // 15) % 2 == 1
+        hist = gen_history(rnd) if with_history else []
+        if kinds[k % 5] == 'tet' and (k // 15) % 4 >= 2:
+            n = len(m['blocks']['tet'])
+            subset = {i for i in range(n) if rnd.random() < rnd.choice([.1, .5, .9])}
+            m = invert(m, subset, SWAPS[-1])
+            m['kind'] = 'tet+inverted'
+            ctx.count('poly:inverted-subset:' + ('empty' if not subset else 'non-empty'))
+        poly_case(ctx, m, tally, hist)
     if ctx.driver is not None:
         ctx.extra['cfg_matches'] = {'fixed': {'match': tally[1][0], 'differ': tally[1][1]},
                                     'upstream(F10)': {'match': tally[0][0], 'differ': tally[0][1]}}
         ctx.extra['cfg_detected'] = [n for c, n in ((1, 'fixed'), (0, 'upstream')) if tally[c][1] == 0]
-    # (b) resolve_degeneracy: each pattern alone on one hex, then random subsets
+    # (b) resolve_degeneracy: each pattern alone on one hex, then random subsets (every second group of 5 after a history)
     for name in sorted(PATTERNS):
         for order in orders:
             m = G.gen_geometric(rnd, kind='hex', max_cells=1, voids=False, order=order)
@@ -490,7 +861,7 @@ def run(ctx):
     for k in range(ctx.n(40, 800) * boost):
         m = G.gen_geometric(rnd, kind=['hex', 'mixed', 'hex', 'prism', 'tet'][k % 5], max_cells=2 if ctx.quick else 3)
         m2, pats = collapse(ctx, m, p_deg=rnd.choice([.2, .5, 1.0]))
-        degen_case(ctx, m2, pats)
+        degen_case(ctx, m2, pats, hist=gen_history(rnd) if (k // 5) % 2 == 1 else [])
     for k in range(ctx.n(6, 30)):
         m = G.gen_geometric(rnd, kind='hex', max_cells=2)
         m2, pats = collapse(ctx, m, p_deg=.5, broken=True)
@@ -509,21 +880,31 @@ def run(ctx):
         n = len(m['blocks']['tet'])
         subset = {i for i in range(n) if rnd.random() < rnd.choice([.1, .5, .9])}
         positive_case(ctx, invert(m, subset, SWAPS[-1]), subset, 'random-subset')
-    # (c') the same with a prior public query on the same object (drawn after the streams above, so that their cases are
-    #      unchanged for a given seed): every subset of a 6-tet mesh after an abs-volume query, random subsets after either query
+    # (c') the same after a history of public calls on the same object: every subset of a 6-tet mesh paired with the
+    #      enumerated histories (each history meets several subsets), random subsets after random histories
+    enum = enum_histories()
     for rep in range(ctx.n(1, 3)):
         m = G.gen_geometric(rnd, kind='tet', max_cells=1, voids=False, order=['shuf', 'desc', 'asc'][rep % 3])
         n = len(m['blocks']['tet'])
         how = SWAPS[-1] if rep == 0 else SWAPS[rep % len(SWAPS)]
-        for r in range(n + 1):
-            for subset in itertools.combinations(range(n), r):
-                positive_case(ctx, invert(m, set(subset), how), subset, 'prior-query:exhaustive-6-tets', prior='abs-volume')
-    for k in range(ctx.n(24, 400) * boost):
+        j = rnd.randrange(len(enum))
+        subsets = [s_ for r in range(n + 1) for s_ in itertools.combinations(range(n), r)]
+        rnd.shuffle(subsets)
+        for subset in subsets:
+            positive_case(ctx, invert(m, set(subset), how), subset, 'history:exhaustive-6-tets', hist=enum[j % len(enum)], tally=tally_h)
+            j += 1
+    for k in range(ctx.n(30, 500) * boost):
         m = G.gen_geometric(rnd, kind='tet', max_cells=2 if ctx.quick else 3)
         n = len(m['blocks']['tet'])
         subset = {i for i in range(n) if rnd.random() < rnd.choice([.1, .5, .9])}
-        positive_case(ctx, invert(m, subset, SWAPS[-1]), subset, 'prior-query:random-subset',
-                      prior='abs-volume' if k % 3 else 'signed-volume')
+        positive_case(ctx, invert(m, subset, SWAPS[-1]), subset, 'history:random-subset', hist=gen_history(rnd), tally=tally_h)
+    if ctx.driver is not None:
+        ctx.extra['cfg_history_matches'] = {'fixed(freshMetric)': {'match': tally_h[1][0], 'differ': tally_h[1][1]},
+                                            'upstream(stored metric)': {'match': tally_h[0][0], 'differ': tally_h[0][1]}}
+        ctx.extra['cfg_history_detected'] = [n for c, n in ((1, 'fixed'), (0, 'upstream')) if tally_h[c][1] == 0]
+    # (c'') positive meshes of the other element types: nothing to re-orient
+    for k in range(ctx.n(6, 60)):
+        positive_other_case(ctx, G.gen_geometric(rnd, kind=['hex', 'prism', 'mixed'][k % 3], max_cells=2))
     ctx.extra['p_tie'] = {'tolerance_centroid': U.TOL_CENTROID, 'tolerance_linear': U.TOL_LINEAR, 'scale': 'max|coordinate|^3'}
 
 
@@ -532,12 +913,15 @@ def replay(ctx, obj, record=False):
     m = G.from_json(inp['mesh'])
     n0, d0 = len(ctx.failures), len(ctx.disagreements)
     op = inp.get('op')
+    hist = inp.get('history') or legacy_history(inp.get('prior_query'))
     if op == 'to_polyhedron':
-        poly_case(ctx, m, {1: [0, 0], 0: [0, 0]})
+        poly_case(ctx, m, {1: [0, 0], 0: [0, 0]}, hist)
     elif op == 'resolve_degeneracy':
-        degen_case(ctx, m, {int(k): v for k, v in inp.get('patterns', {}).items()})
+        degen_case(ctx, m, {int(k): v for k, v in inp.get('patterns', {}).items()}, hist=hist)
     elif op == 'make_elements_positive':
-        positive_case(ctx, m, set(inp.get('inverted', [])), 'replay', prior=inp.get('prior_query'))
+        positive_case(ctx, m, set(inp.get('inverted', [])), 'replay', hist=hist)
+    elif op == 'make_elements_positive_other':
+        positive_other_case(ctx, m)
     else:
         return {'fails': False, 'error': 'unknown op'}
     return {'op': op, 'describe': G.describe(m),
